@@ -38,7 +38,7 @@ def run(m, chk):
         "Static discharge of structural clauses of C14: knot_clean / degree_clean repeat the tolerance-guarded removal until it is refused (shrink-until-refused loop, only ValueError swallowed), for every "
         "interior knot; clean calls both on every path; the tolerance reaches every gate through every call site (ARG-FLOW); the gate itself (C05) holds. Minimality, idempotence and uniqueness are not decided."
     )
-    chk.decides = ["MEMO-KEY (no function on the path is memoised by the value of numbers / knot vectors)", "UNTIL-REFUSED", "ONLY-VALUEERROR", "ALL-KNOTS", "clean calls both", "ARG-FLOW(tolerance)", "GATE-TOL", "N", "WEIGHT-HOMOG (the fit behind every removal keeps rational control points of degree 0 in the weights)"]
+    chk.decides = ["ARG-RANGE (degree_decrease refuses no times in 1..degree before trying)", "LOOP-ACCUMULATE (the error handed to the gate is not overwritten per component in a loop)", "MEMO-KEY (no function on the path is memoised by the value of numbers / knot vectors)", "UNTIL-REFUSED", "ONLY-VALUEERROR", "ALL-KNOTS", "clean calls both", "ARG-FLOW(tolerance)", "GATE-TOL", "N", "WEIGHT-HOMOG (the fit behind every removal keeps rational control points of degree 0 in the weights)"]
     chk.not_decided = ["minimality / uniqueness of the cleaned representation", "idempotence as values"]
     until_refused(r, chk, C + "knot_clean", "knot_remove")
     until_refused(r, chk, C + "degree_clean", "degree_decrease")
@@ -75,3 +75,9 @@ def run(m, chk):
 
     nm = memo_key(r, chk, entries=['curves.Curve.knot_clean', 'curves.Curve.degree_clean', 'curves.Curve.clean'])
     chk.floor("MEMO-KEY", "functions reachable from the entry points examined for value-keyed memoisation", nm, 3)
+    from .extra import loop_accumulate
+
+    loop_accumulate(r, chk, ["curves.Curve.fit_curve", "curves.BaseCurve.update", "heavy.LeastSquare.func2func", "heavy.LeastSquare.spline2spline"])
+    from .extra import arg_range
+
+    arg_range(r, chk, C + "degree_decrease", "times", lambda p: range(1, p + 1))
